@@ -419,6 +419,23 @@ class ArrayQuantity(GenericQuantity, np.ndarray):
             return np.asarray(outarr)
         return outarr
 
+    # Augmented assignment: ndarray's in-place operators know nothing about
+    # units (a += b combined metres and seconds, a *= b kept the units of a).
+    def __iadd__(self, other):
+        return self + other
+
+    def __isub__(self, other):
+        return self - other
+
+    def __imul__(self, other):
+        return self*other
+
+    def __itruediv__(self, other):
+        return self/other
+
+    def __ipow__(self, other):
+        return self**other
+
     def __getitem__(self, idx):
         result = np.ndarray.__getitem__(self, idx)
         if not isinstance(result, np.ndarray):
